@@ -76,7 +76,7 @@ class KexDH:  # pragma: nocover
             self.__x = r.randrange(2, self.__q)
             self.__e = pow(self.__g, self.__x, self.__p)
         except ValueError:  # The server sent a degenerate group (i.e.: a modulus of 0 or 1).
-            raise KexDHException("Invalid DH group parameters (g: %u; p: %u)." % (self.__g, self.__p)) from None
+            raise KexDHException("Invalid DH group parameters (g: %u bits; p: %u bits)." % (self.__g.bit_length(), self.__p.bit_length())) from None  # Note: the values themselves may be too large to print (the peer chooses them).
         s.write_byte(init_msg)
         s.write_mpint2(self.__e)
         s.send_packet()
